@@ -38,6 +38,41 @@ def _guarded_check(solver, assumptions, timeout_ms):
         timer.cancel()
 
 
+SECOND = {"budget": 0, "seen": set(), "bin": "/usr/bin/z3", "timeout_s": 20}
+
+
+def second_opinion(formulas):
+    """Decide the same formula set with the independent z3 4.8.12 binary (the primary is the 5.x wheel).
+    Returns 'unsat' | 'sat' | 'unknown' | 'error'.  Any `(error` line in the output is 'error' (inconclusive)."""
+    import os
+    import subprocess
+    import tempfile
+
+    if not os.path.exists(SECOND["bin"]):
+        return "error"
+    s2 = z3.Solver()
+    for f in formulas:
+        s2.add(f)
+    fd, path = tempfile.mkstemp(suffix=".smt2", prefix="second_")
+    try:
+        with os.fdopen(fd, "w") as fh:
+            fh.write(s2.to_smt2())
+        try:
+            p = subprocess.run([SECOND["bin"], f"-T:{SECOND['timeout_s']}", path], capture_output=True, text=True,
+                               timeout=SECOND["timeout_s"] + 10)
+        except subprocess.TimeoutExpired:
+            return "unknown"
+        out = p.stdout.strip().splitlines()
+        if any("(error" in ln for ln in out) or not out:
+            return "error"
+        return out[0] if out[0] in ("sat", "unsat", "unknown") else ("unknown" if "timeout" in out[0] else "error")
+    finally:
+        try:
+            os.remove(path)
+        except OSError:
+            pass
+
+
 class Ctx:
     cur = None
 
@@ -295,6 +330,10 @@ class Ctx:
         self.set_timeout(self.timeout_ms)
         rec = {"name": name, "result": str(r), "reach": str(reach), "path": len(self.results), "info": info,
                "secs": round(time.time() - t0, 2), "relaxed": relaxed}
+        if r == z3.unsat and SECOND["budget"] > 0 and name not in SECOND["seen"]:
+            SECOND["seen"].add(name)
+            SECOND["budget"] -= 1
+            rec["second"] = second_opinion(list(self.pc) + [np_])
         if r == z3.sat:
             rec["model"] = self.model_values(getattr(self, "_alt_model", None))
             self._alt_model = None
